@@ -36,6 +36,7 @@ CONSTANTS
  Boot = %(Boot)s
  Life = %(Life)s
  RefuseByName = %(RefuseByName)s
+ Only = {%(Only)s}
  Modes = {%(Modes)s}
  Dump = "%(Dump)s"
 INVARIANT InvStateOK
@@ -48,7 +49,7 @@ CHECK_DEADLOCK FALSE
 def mc_core(params, dump='none', module='MC_core', workers=16, timeout=3600, table='core.names.json'):
     """dump: none | edges (transition tour, history hidden) | hist (all histories)"""
     p = dict(MaxEntries=3, MaxDepth=2, MaxLen=3, MaxRefuse=1, MaxSched=0, MaxGen=1, CfgIds='2',
-             Modes='"lazy"', UseBlobs='"z","o"', InPlace='FALSE', Boot='FALSE', Life='FALSE', RefuseByName='FALSE')
+             Modes='"lazy"', UseBlobs='"z","o"', InPlace='FALSE', Boot='FALSE', Life='FALSE', RefuseByName='FALSE', Only='')
     p.update(params)
     p['Dump'] = dump
     extra = []
@@ -69,7 +70,7 @@ def mc_core(params, dump='none', module='MC_core', workers=16, timeout=3600, tab
 def simulate(params, num, seed, module='MC_core', workers=8, timeout=1800, table='core.names.json'):
     """random behaviours of exactly MaxLen+1 calls (TLC -simulate), printed when complete."""
     p = dict(MaxEntries=4, MaxDepth=2, MaxLen=8, MaxRefuse=2, MaxSched=0, MaxGen=2, CfgIds='2',
-             Modes='"lazy"', UseBlobs='"z","o"', InPlace='FALSE', Boot='FALSE', Life='FALSE', RefuseByName='FALSE')
+             Modes='"lazy"', UseBlobs='"z","o"', InPlace='FALSE', Boot='FALSE', Life='FALSE', RefuseByName='FALSE', Only='')
     p.update(params)
     p['Dump'] = 'final'
     p['extra'] = 'CONSTRAINT DumpFinal'
